@@ -21,7 +21,7 @@ theorem spaceship_agrees {T : TruthTable} (a b : Val F) :
   simp only [eval, cmp, lt, gt, viaCompare]
   cases looseCompare P T a b with
   | none => simp
-  | some o => cases o <;> simp [Ord4.toInt, h1, h2, h3, h1.symm, h2.symm, h3.symm]
+  | some o => cases o <;> simp [Ord4.toInt, Ord4.isLt, Ord4.isGt, h1, h2, h3, h3.symm]
 
 theorem exact_add {T : TruthTable} (a b : Val F) (r : Res F) (hs : Spec.Ops.eval P .add a b = some r) :
     eval P T .add false a b = r := by
@@ -153,7 +153,8 @@ theorem exact_eqne {T : TruthTable} (hT : wf T = true) (hF : FloatOrder P) (a b 
     simp [Spec.Ops.eval, Spec.Ops.looseEq, Spec.Ops.toF, Spec.Ops.mkBool] at hs' <;>
     subst hs' <;>
     simp [eval, eqv, nev, viaCompare, looseCompare, isNullOrBool, ha, hb, Spec.Ops.truthy, bne, hf,
-      ordInt_eq, ordStr_eq, hi, hs, int_eq_test, str_eq_test, ordBool_eq_test]
+      ordInt_eq, ordStr_eq, hi, hs, int_eq_test, str_eq_test, ordBool_eq_test] <;>
+    (try rfl)
 
 theorem exact_strict {T : TruthTable} (a b : Val F) (r : Res F) :
     (Spec.Ops.eval P .seq a b = some r → eval P T .seq false a b = r) ∧
@@ -174,11 +175,8 @@ theorem exact_rel {T : TruthTable} (hF : FloatOrder P) (a b : Val F) (r : Res F)
   refine ⟨?_, ?_, ?_, ?_⟩ <;> intro hs' <;> cases a <;> cases b <;>
     simp [Spec.Ops.eval, Spec.Ops.order, Spec.Ops.toF, Spec.Ops.mkBool] at hs' <;>
     subst hs' <;>
-    simp [eval, lt, le, gt, ge, viaCompare, looseCompare, ordInt_eq, ordStr_eq,
-      (hf _ _).1, (hf _ _).2.1, (hf _ _).2.2.2.1, (hf _ _).2.2.2.2.1,
-      (hi _ _).1, (hi _ _).2.1, (hi _ _).2.2.2.1, (hi _ _).2.2.2.2.1,
-      (hs _ _).1, (hs _ _).2.1, (hs _ _).2.2.2.1, (hs _ _).2.2.2.2.1,
-      BitVec.slt_eq_decide]
+    simp [eval, lt, le, gt, ge, viaCompare, looseCompare, ordInt_eq, ordStr_eq, hf, hi, hs,
+      int_lt_test, int_le_test]
 
 theorem exact_cmp {T : TruthTable} (hF : FloatOrder P) (a b : Val F) (r : Res F)
     (hs : Spec.Ops.eval P .cmp a b = some r) : eval P T .cmp false a b = r := by
@@ -188,7 +186,8 @@ theorem exact_cmp {T : TruthTable} (hF : FloatOrder P) (a b : Val F) (r : Res F)
   cases a <;> cases b <;>
     simp [Spec.Ops.eval, Spec.Ops.spaceship, Spec.Ops.order, Spec.Ops.toF] at hs <;>
     subst hs <;>
-    simp [eval, cmp, looseCompare, ordInt_eq, ordStr_eq, hf, hi, hs3, BitVec.slt_eq_decide, Spec.Ops.wrap]
+    simp [eval, cmp, looseCompare, ordInt_eq, ordStr_eq, hf, hi, hs3, Spec.Ops.wrap] <;>
+    (try simp [BitVec.slt_eq_decide])
 
 theorem exact_logic {T : TruthTable} (hT : wf T = true) (a b : Val F) (r : Res F) :
     (Spec.Ops.eval P .land a b = some r → eval P T .land false a b = r) ∧
